@@ -8,6 +8,7 @@ import ErrModel.Basic.Redact
 import ErrModel.Engine
 import ErrModel.Report
 import ErrModel.Proto
+import ErrModel.ProtoEnc
 /-
   Observation streams printed by the driver (and, identically, by the harness
   from the real code).
@@ -213,6 +214,7 @@ def obsCase (e : Option Err) (refs : List (Option Err)) (trim : List Str := []) 
       pList ["tree", pTree e],
       pList ["enc", pEnc (encode Full vfStub e)],
       pList ["detbytes", pStrs (detBytesOf (encode Full vfStub e))],
+      pList ["wirebytes", pStr (Proto.serW (Proto.core (encode Full vfStub e)))],
       pList ["h1tree", pOpt pTree h1],
       pList ["h1enc", pOpt (fun x => pEnc (encode Full vfStub x)) h1],
       pList ["h2enc", pOpt (fun x => pEnc (encode Full vfStub x)) h2],
